@@ -47,6 +47,9 @@ fn family(name: &str) -> GenCfg {
         "wrap" => GenCfg { threads: (1, 3), hold: vec![8, 8, 9, 0], setgen: Some(0), ops: (2, 6), ..base },
         "steps" => GenCfg { threads: (2, 3), w: [8, 6, 3, 1, 6, 3, 1, 1, 0], hold: vec![0, 4, 7, 8, 12], ..base },
         "churn" => GenCfg { threads: (3, 5), ops: (1, 3), hold: vec![0, 0, 8], ..base },
+        // every load on the fallback path (no fast slots), writers mostly rcu/cas: helpers abound
+        "helprcu" => GenCfg { threads: (3, 4), strategy: 1, w: [9, 4, 4, 1, 3, 2, 3, 6, 1], ops: (3, 7), with_null: false, ..base },
+        "helpiso" => GenCfg { threads: (3, 4), containers: 2, strategy: 1, w: [9, 4, 4, 1, 5, 3, 2, 3, 1], ops: (3, 7), ..base },
         other => panic!("unknown family {}", other),
     }
 }
